@@ -142,6 +142,9 @@ class _DigitLoop:
                 walk(x["inner"][1])
             elif k == "BinaryOperator" and x.get("opcode") in (">=", ">", "==", "!="):
                 l, r = strip(x["inner"][0]), strip(x["inner"][1])
+                if l.get("kind") == "UnaryOperator" and l.get("opcode") == "--" and not l.get("isPostfix") and x["opcode"] == ">":
+                    # `--i > 0` in the condition: at the loop head the cursor is still one above the next index
+                    l = strip(l["inner"][0])
                 if l.get("kind") == "DeclRefExpr" and r.get("kind") == "IntegerLiteral" and r.get("value") == "0":
                     if x["opcode"] in (">=", ">"):
                         found["cursor"], found["delta"] = l["referencedDecl"]["id"], (0 if x["opcode"] == ">=" else 1)
